@@ -151,7 +151,7 @@ def h_prior(ctx, skel, distr):
 
 def cases(tier):
     cs = []
-    for sk in VAR_SKELS:
+    for sk in VAR_SKELS + (SK.random_names(6) if tier == "thorough" else []):
         cs.append(Case(f"variational:{sk}:phased", h_variational, dict(skel=sk, phased=True)))
         if sk.startswith("diploid"):
             cs.append(Case(f"variational:{sk}:unphased", h_variational, dict(skel=sk, phased=False)))
